@@ -78,7 +78,7 @@ func (mon) Plan(prop, tier string, seed int64) []drv.Shard {
 		add("rand", nrand/parts, false)
 		{
 			p := parts
-			parts = 2
+			parts = 4
 			add("rush", 0, false, "GOMAXPROCS=1")
 			add("rush", 0, false, "GOMAXPROCS=2")
 			add("rush", 0, false)
@@ -363,8 +363,8 @@ func rushScenarios(seed int64) []Scenario {
 		for i := 0; i < ls*qs; i++ {
 			pushes = append(pushes, PushSpec{Lane: i % ls, Task: TaskSpec{Kind: "instant"}})
 		}
-		for rep := 0; rep < 25; rep++ {
-			out = append(out, Scenario{LaneSize: ls, QueueSize: qs, TimeoutMs: 3600000, Pins: seq(ls), Producers: [][]PushSpec{pushes}, Cancel: CancelPlan{Kind: "external"}, PostPush: 0, Waiters: 8, EarlyWait: true})
+		for rep := 0; rep < 90; rep++ {
+			out = append(out, Scenario{LaneSize: ls, QueueSize: qs, TimeoutMs: 3600000, Pins: seq(ls), Producers: [][]PushSpec{pushes}, Cancel: CancelPlan{Kind: "external"}, PostPush: 0, Waiters: []int{8, 16, 4}[rep%3], EarlyWait: true})
 		}
 	}
 	// nil tasks: a nil Task is accepted like any other; the worker that takes it recovers the nil
